@@ -123,7 +123,7 @@ func init() {
 		case "reset":
 			go func() {
 				sa.WriteSCTP([]byte("last"), PayloadTypeWebRTCBinary) //nolint:errcheck
-				sa.Close()                                          //nolint:errcheck
+				sa.Close()                                            //nolint:errcheck
 			}()
 		case "fwd":
 			atomic.StoreInt32(&dropData, 1)
@@ -166,7 +166,7 @@ func init() {
 		} else {
 			call("Close", func() { target.Close() }) //nolint:errcheck
 			time.Sleep(50 * time.Millisecond)
-			call("Close-2", func() { target.Close() })                                                        //nolint:errcheck
+			call("Close-2", func() { target.Close() })                                                       //nolint:errcheck
 			call("WriteSCTP-after-close", func() { target.WriteSCTP([]byte("x"), PayloadTypeWebRTCBinary) }) //nolint:errcheck
 		}
 		time.Sleep(1800 * time.Millisecond) // the handler goes on
@@ -325,7 +325,15 @@ func init() {
 		loop("OnBufferedAmountLow", func() { sa.OnBufferedAmountLow(func() {}) })
 		loop("BufferedAmount+State", func() { sa.BufferedAmount(); sa.State(); sa.StreamIdentifier(); sa.BufferedAmountLowThreshold() })
 		loop("SetReadDeadline", func() { sa.SetReadDeadline(time.Now().Add(time.Hour)) }) //nolint:errcheck
-		loop("Association accessors", func() { a.BufferedAmount(); a.SRTT(); a.CWND(); a.RWND(); a.MTU(); a.BytesSent(); a.BytesReceived() })
+		loop("Association accessors", func() {
+			a.BufferedAmount()
+			a.SRTT()
+			a.CWND()
+			a.RWND()
+			a.MTU()
+			a.BytesSent()
+			a.BytesReceived()
+		})
 		spawn("writer", func() {
 			payload := make([]byte, 200)
 			for i := 0; i < 600; i++ {
